@@ -527,6 +527,79 @@ pub fn run(tier: &str) -> i32 {
             );
         }
     }
+    // ---- auth_query pools whose hash could not be fetched when the pool was created (role not
+    // yet on the server / server down): the login that makes the pooler fetch it is judged like
+    // any other, for every response class
+    let late_classes = ["wrong_password", "empty", "cleartext_password", "first_pass_hash_only", "hash_for_other_user", "only_nul", "correct"];
+    let late_jobs: Vec<(&str, &str)> = late_classes.iter().flat_map(|c| [(*c, "role_absent_at_start"), (*c, "server_down_at_start")]).collect();
+    run_parallel(late_jobs.len(), workers().min(8), |i| {
+        let (class, why) = late_jobs[i];
+        let mut cell = Cell::new();
+        let m = cell.add_mock("dbq.s0.primary.0");
+        let mut cfg = Cfg::new();
+        let mut pq = PoolCfg::single("dbq", "uq", "x", 2, vec![cell.server(m, "primary")]);
+        pq.users[0].password = None;
+        pq.set("auth_query", &format!("\"{}\"", AQ));
+        pq.set("auth_query_user", "\"aq\"");
+        pq.set("auth_query_password", "\"aqpw\"");
+        cfg.pools.push(pq);
+        cell.mocks[m].ctl.pooler_queries.lock().unwrap().push(AQ.replace("$1", "uq"));
+        if why == "server_down_at_start" {
+            cell.mocks[m].ctl.listen.store(crate::mock::LISTEN_DOWN, std::sync::atomic::Ordering::SeqCst); sleep_ms(30);
+        }
+        if let Err(e) = cell.start_pgcat(&cfg, &StartOpts::default()) {
+            rep.inconclusive(&format!("late-hash leg ({}) start: {:?}", why, e));
+            return;
+        }
+        // now the role exists / the server is up
+        cell.mocks[m].ctl.shadow.lock().unwrap().insert("uq".into(), format!("md5{}", md5_hex(b"pwquq")));
+        cell.mocks[m].ctl.listen.store(crate::mock::LISTEN_UP, std::sync::atomic::Ordering::SeqCst);
+        sleep_ms(30);
+        let addr = cell.addr();
+        let att = |resp: &str, pw: &str| Attempt { class: format!("first_login_fetches_hash:{}", resp), good: resp == "correct", user: "uq".into(), db: "dbq".into(), resp: resp.into(), password: pw.into(), pipeline_after_startup: false, pipeline_after_response: resp != "correct", tls: false };
+        let first = att(class, if class == "correct" { "pwq" } else { "wrongq" });
+        match attempt(&addr, &first, &None, 970_000 + i) {
+            Err(e) => rep.inconclusive(&format!("late-hash leg: {}", e)),
+            Ok(o) => {
+                rep.eval(1);
+                rep.count("first_logins_on_pools_without_a_hash", 1);
+                rep.distinct_str(&format!("late_hash|{}|{}", class, why));
+                if o.auth_ok && class != "correct" {
+                    rep.violation(
+                        &format!("C09|admitted_without_valid_credentials|class=first_login_fetches_hash:{}|user=uq|db=dbq|tls=false", class),
+                        &format!("auth_query pool whose hash was unavailable at startup ({}): the first login, response class {}, got AuthenticationOk (messages {})", why, class, o.msgs),
+                        json!({"why": why, "class": class, "messages": o.msgs}),
+                    );
+                }
+                if !o.auth_ok && class == "correct" {
+                    rep.violation(
+                        "C09|valid_credentials_refused|user=uq|db=dbq|first_login_fetches_hash",
+                        &format!("auth_query pool whose hash was unavailable at startup ({}): the correct password is refused once the role exists: {:?} {}", why, o.err, o.msgs),
+                        json!({"why": why, "messages": o.msgs}),
+                    );
+                }
+            }
+        }
+        // afterwards: wrong refused, right admitted
+        if let Ok(o) = attempt(&addr, &att("wrong_password", "wrongq"), &None, 971_000 + i) {
+            if o.auth_ok {
+                rep.violation("C09|admitted_without_valid_credentials|class=after_first_login_fetched_hash:wrong_password|user=uq|db=dbq|tls=false", &format!("wrong password admitted after the hash had been fetched ({}): {}", why, o.msgs), json!({"why": why}));
+            }
+        }
+        if let Ok(o) = attempt(&addr, &att("correct", "pwq"), &None, 972_000 + i) {
+            if !o.auth_ok {
+                rep.violation("C09|valid_credentials_refused|user=uq|db=dbq|after_first_login_fetched_hash", &format!("correct password refused after the hash had been fetched ({}): {:?} {}", why, o.err, o.msgs), json!({"why": why}));
+            }
+        }
+        sleep_ms(30);
+        for e in cell.log.snapshot() {
+            if let Ev::MockMsg { qid: Some(q), client, bytes, .. } = &e.ev {
+                if client.as_deref() == Some("evil") && q.starts_with("evil.bad.") {
+                    rep.violation("C09|bytes_of_unauthenticated_client_reached_server|kind=first_login_fetches_hash", &format!("a query pipelined behind a wrong password reached the server ({}): {}", why, printable(bytes, 120)), json!({"why": why, "class": class}));
+                }
+            }
+        }
+    });
     let ns = salts.lock().unwrap().len() as u64;
     rep.count("distinct_salts", ns);
     if rep.get("salts_seen") > 50 && ns < rep.get("salts_seen") / 2 {
